@@ -188,6 +188,13 @@ def _under_kind(term, kind):
                     if k:
                         eq = k == kind
                         return ("const", eq if tm[1] in ("==", "is") else not eq)
+        if tm[0] == "cmp" and tm[1] in ("<", "<=", ">", ">="):
+            # inspect._ParameterKind is an IntEnum in declaration order
+            a, b = tm[2], tm[3]
+            ra = KINDS.index(kind) if a[0] == "attr" and a[2] == "kind" else (KINDS.index(_kind_of_const(a)) if _kind_of_const(a) else None)
+            rb = KINDS.index(kind) if b[0] == "attr" and b[2] == "kind" else (KINDS.index(_kind_of_const(b)) if _kind_of_const(b) else None)
+            if ra is not None and rb is not None and ((a[0] == "attr" and a[2] == "kind") or (b[0] == "attr" and b[2] == "kind")):
+                return ("const", {"<": ra < rb, "<=": ra <= rb, ">": ra > rb, ">=": ra >= rb}[tm[1]])
         if tm[0] == "cmp" and tm[1] in ("in", "notin") and tm[2][0] == "attr" and tm[2][2] == "kind" and tm[3][0] in ("tuple", "set", "list"):
             ks = [_kind_of_const(x) for x in tm[3][1]]
             if all(ks):
